@@ -415,6 +415,32 @@ def run(world, rep, tier, only=None):
         rep.ob("C01.n", site(cfl, "claim on the old EA block given up after it was cloned"), bool(dd) and cfl.must_pass_after(n, dd),
                "every path from `ext2fs_file_acl_block_set(…, new_blk)` to the end of clone_file() passes deferred_dec_badcount()")
 
+    # ------------------------------------------------------------------ C01.o what is charged to i_blocks was allocated
+    # ext2fs_iblk_add_blocks() charges whole clusters.  A counter that ends up as its argument (a field of the context
+    # handed to a block-walk callback) goes up only where a cluster was taken from the allocator: a block that lies in
+    # a cluster the inode already owns costs nothing, and counting it makes the next run report a wrong i_blocks.
+    ALLOCATORS = ("ext2fs_new_block2", "ext2fs_new_block3", "ext2fs_new_range", "ext2fs_alloc_block3", "ext2fs_alloc_block2",
+                  "e2fsck_allocate_block", "ext2fs_new_block")
+    n_ctr = 0
+    for f in prog.functions():
+        if not f.file.startswith("e2fsck/"):
+            continue
+        for c in calls_to(f, "ext2fs_iblk_add_blocks"):
+            lf = T.last_field(T.strip(arg(c, 2)) or {}) if isinstance(arg(c, 2), dict) else None
+            if not lf:
+                continue
+            for g in prog.functions():
+                if not g.file.startswith("e2fsck/"):
+                    continue
+                for n in g.events("S"):
+                    if T.last_field(n.ev["lhs"]) == lf and n.ev.get("o") in ("++", "+="):
+                        n_ctr += 1
+                        al = calls_to(g, *ALLOCATORS)
+                        rep.ob("C01.o", site(g, "%s counts allocated clusters only#%d" % (lf[1], n_ctr)), bool(al) and g.dominated_by(n, al),
+                               "`%s` (line %d), later handed to ext2fs_iblk_add_blocks() in %s, lies behind a call of the allocator" %
+                               (n.text()[:30], n.line, f.name))
+    rep.floor("C01.o counters handed to ext2fs_iblk_add_blocks", n_ctr, 1)
+
     # ------------------------------------------------------------------ C01.g bitmap checksum verification skipped only for a dirty own bitmap
     p5 = {f.name: f for f in prog.fns_in_file("e2fsck/pass5.c")}
     pass5 = p5.get("e2fsck_pass5")
